@@ -17,6 +17,7 @@ import (
 	"context"
 	"io"
 	"net"
+	"strconv"
 	"sync"
 	"time"
 
@@ -167,6 +168,13 @@ func streamSplitSeq(seed uint64, thorough bool) {
 			splitSeqCase(fields, false, []int{t1, t2, t1}, 3)
 		}
 	}
+	for _, fs := range siblingCorpus() {
+		mixed := append([]modbus.Field{mkField(0, "a", 1, 3, modbus.FieldTypeCoil, 0)}, fs...)
+		for i := range mixed {
+			mixed[i].Name = strconv.Itoa(i)
+		}
+		splitSeqCase(mixed, false, []int{0, 4, 7, 5}, 11)
+	}
 	n := 4000
 	if thorough {
 		n = 40000
@@ -174,6 +182,9 @@ func streamSplitSeq(seed uint64, thorough bool) {
 	for i := 0; i < n; i++ {
 		sc := genScenario(r)
 		fields := genFields(r, sc, 2+r.intn(20), 30+r.intn(41), r.intn(30) == 0)
+		if r.bool() {
+			fields = addSiblings(r, fields, 30)
+		}
 		if r.intn(40) == 0 {
 			mutateInvalid(r, fields)
 		}
